@@ -72,6 +72,7 @@ type Contract struct {
 	Functional   string   // "functional NAME": the result is a function NAME(args) of the arguments (slices: content and length)
 	NoFrame      bool     // "modifies anything": top-level actor closures, no frame obligations (such a function cannot be called from a function under contract)
 	SplitRet     bool     // prove every postcondition separately per return statement
+	HeapClosed   bool     // "heapclosed": add the axiom "every reference stored in the entry heap is below the entry watermark" (quantified)
 	DispatchOnly []string // "dispatchonly Cxx ...": target of interface dispatch only in these modes; elsewhere call sites must exclude it
 	Safety       []string // properties under which safe.*/nofatal/nopanic obligations are generated (default: all)
 	GhostDo      []*GhostAssign
@@ -138,7 +139,7 @@ var clauseKeywords = map[string]bool{
 	"func": true, "extern": true, "pure": true, "ghost": true, "props": true, "requires": true, "ensures": true,
 	"modifies": true, "loop": true, "invariant": true, "decreases": true, "nofatal": true, "overflow": true,
 	"let": true, "trusted": true, "returns": true, "fatal": true, "assume": true, "callback": true,
-	"lemma": true, "mode": true, "dispatchonly": true, "sentinel": true, "iface": true, "share": true, "effectfree": true, "opaque": true, "end": true, "ghostdo": true, "ghostret": true, "atcall": true, "split": true, "safety": true, "splitreturns": true, "functional": true,
+	"lemma": true, "mode": true, "heapclosed": true, "dispatchonly": true, "sentinel": true, "iface": true, "share": true, "effectfree": true, "opaque": true, "end": true, "ghostdo": true, "ghostret": true, "atcall": true, "split": true, "safety": true, "splitreturns": true, "functional": true,
 }
 
 var labelRe = regexp.MustCompile(`^(requires|ensures|invariant|assume)\[([^\]]*)\]\s*(.*)$`)
@@ -495,6 +496,11 @@ func (cs *Contracts) parseFile(p *Program, pkgPath, file, src string) error {
 			if cur != nil {
 				cur.SplitRet = true
 			}
+		case "heapclosed":
+			if cur == nil {
+				return fail(rc, "heapclosed outside func")
+			}
+			cur.HeapClosed = true
 		case "dispatchonly":
 			if cur == nil {
 				return fail(rc, "dispatchonly outside func")
